@@ -1,2 +1,7 @@
 import Driver.ProducerHist
-def main : IO UInt32 := Driver.ProducerHist.mainFor "C14"
+import Driver.ConsumerHist
+/-! C14: produce half on `prod` scenarios (Model.Producer), fetch half on `cons` scenarios (Model.Consumer). -/
+def main : IO UInt32 := Driver.runLoop () (fun _ line =>
+  let (op, impl) := Driver.splitBar line
+  if op.startsWith "cons" then ((), Driver.ConsumerHist.handle "C14" impl)
+  else ((), Driver.ProducerHist.handle "C14" line))
